@@ -139,14 +139,6 @@ def parse_trie(s, enum, index, what):
     return t
 
 
-def trie_leaves(t, path=()):
-    if t[0] == "leaf":
-        yield path, t[1]
-    elif t[0] == "node":
-        yield from trie_leaves(t[1], path + (0,))
-        yield from trie_leaves(t[2], path + (1,))
-
-
 def lean_trie(t, ind=2):
     pad = " " * ind
     if t[0] == "empty":
@@ -580,11 +572,6 @@ def binding_chain(E):
         x = ln[len(PFX + "c_"):] if ln and ln.startswith(PFX + "c_") else None
         chain[v] = dict(wrapper=w, ffi=f or "", link=ln or "", wrapped=x if x in wraps else "", x=x or "")
     return chain, wraps
-
-
-def camel_to_c(v):
-    """Add16 -> ADD_16 (the naming the two generated sides share); used only to order-check, the theorems go by Display name"""
-    return v
 
 
 def c_lean(E, C):
